@@ -66,9 +66,39 @@ func bigDoc(r *kernel.Rand, id int) string {
 	return sb.String()
 }
 
+// trickyString: 0-40 characters over an alphabet of everything an encoder treats specially
+// (controls, DEL, quote, backslash, U+2028, multi-byte, astral), so that specials fall at every
+// offset of strings of every small length. Returned as a JSON string literal.
+func trickyString(r *kernel.Rand) string {
+	alphabet := []string{"a", "b", "z", " ", "0", `\u007f`, `\u0000`, `\u001f`, `\n`, `\t`, `\"`, `\\`, "/", "<", ">", "&", "é", "日", "😀", `\u2028`, `\ufffd`, "~", "}", `\u0080`, `\u00ff`, "\x7f"}
+	n := r.Range(0, 40)
+	var sb strings.Builder
+	sb.WriteString(`"`)
+	for i := 0; i < n; i++ {
+		if r.Bool(0.75) {
+			sb.WriteString(kernel.Pick(r, []string{"a", "b", "c", "x", "y", "0", " "}))
+		} else {
+			sb.WriteString(kernel.Pick(r, alphabet))
+		}
+	}
+	sb.WriteString(`"`)
+	return sb.String()
+}
+
 func genDocs(r *kernel.Rand, n int) []string {
 	docs := make([]string, n)
 	for i := range docs {
+		if r.Bool(0.12) {
+			switch r.Intn(3) {
+			case 0:
+				docs[i] = trickyString(r)
+			case 1:
+				docs[i] = fmt.Sprintf(`{"id":%d,"v":%s,%s:[%s]}`, i+1, trickyString(r), trickyString(r), trickyString(r))
+			default:
+				docs[i] = "[" + trickyString(r) + "," + trickyString(r) + "]"
+			}
+			continue
+		}
 		if r.Bool(0.04) {
 			docs[i] = bigDoc(r, i+1)
 			continue
@@ -115,6 +145,10 @@ func genC15Query(r *kernel.Rand, ndocs int, allowInput bool) string {
 		}
 		if strings.Contains(it, "%d") {
 			it = fmt.Sprintf(it, r.Range(1, max(1, ndocs)))
+		}
+		if r.Bool(0.06) {
+			it = kernel.Pick(r, []string{"%s", "[%s]", "{k: %s}", "{(%s): 1}"})
+			it = fmt.Sprintf(it, trickyString(r))
 		}
 		parts = append(parts, it)
 	}
